@@ -140,7 +140,15 @@ def parse_conj(block):
 def parse_sim_file(text):
     """One behaviour written by `-simulate file=...`: list of (action, state)."""
     out = []
-    for m in re.finditer(r"\\\* <?([A-Za-z_0-9 ]*?)(?: line[^\n]*)?>?\n?STATE_(\d+) ==\s*\n(.*?)(?=\n\n|\Z)",
-                         text, flags=re.S):
-        out.append((m.group(1).strip(), parse_conj(m.group(3))))
+    parts = re.split(r"^STATE_\d+ ==\s*$", text, flags=re.M)
+    # parts[0] ends with the comment naming the first action; each later part
+    # is "<state conj>\n\n\\* <Action ...>" (the comment belongs to the next state)
+    act = re.findall(r"\\\* <(\w+)", parts[0])
+    action = act[-1] if act else "?"
+    for part in parts[1:]:
+        m = re.search(r"^\\\* <(\w+)[^\n]*$", part, flags=re.M)
+        body = part[:m.start()] if m else part
+        body = re.sub(r"^=+\s*$", "", body, flags=re.M)
+        out.append((action, parse_conj(body)))
+        action = m.group(1) if m else "?"
     return out
